@@ -30,7 +30,8 @@ EmptyMap(n) == [k \in 1..n |-> 0]
 Overlay(base, top) == [k \in 1..Len(base) |-> IF top[k] # 0 THEN top[k] ELSE base[k]]
 ToSet(s)    == {s[x] : x \in 1..Len(s)}
 
-Chk(p, name, cond) == IF cond THEN {} ELSE {<<p, name>>}
+\* a clause is only evaluated when its property is selected (TLC evaluates IF lazily)
+Chk(props, p, name, cond) == IF p \notin props THEN {} ELSE IF cond THEN {} ELSE {<<p, name>>}
 
 (***************************************************************************)
 (* cfg = [ nk, na, ni,                                                     *)
@@ -75,7 +76,7 @@ ArgMax(set, fn) == CHOOSE x \in set : \A y \in set : fn[x] >= fn[y]
 
 -----------------------------------------------------------------------------
 (* A call f(args) through instance i *)
-CallFailed(cfg, S, e) ==
+CallFailed(props, cfg, S, e) ==
   LET i      == e.i
       a      == e.a
       k      == cfg.keyof[a]
@@ -100,54 +101,63 @@ CallFailed(cfg, S, e) ==
       inf2   == e.info[i]
       u      == Unit(class)
       others == \A j \in 1..cfg.ni : j # i => e.mem[j] = S.mem[j] /\ e.info[j] = S.info[j]
-  IN
-  IF class \in {"hit", "load", "miss"} THEN
-       Chk("C01", "C01.Ret", e.exc = "none" /\ e.ret = val)
-  \cup Chk("C01", "C01.MemSound", \A kk \in 1..cfg.nk : mem2[kk] \in {0, cfg.fk[kk]})
-  \cup Chk("C01", "C01.ArchSound", \A x \in 1..cfg.na : \A kk \in 1..cfg.nk : e.archs[x][kk] \in {0, cfg.fk[kk]})
-  \cup Chk("C02", "C02.Eval", e.ev = IF class = "miss" THEN <<a>> ELSE <<>>)
-  \cup Chk("C02", "C02.MissStores", class = "miss" =>
-             \/ mem2[k] = val
-             \/ arched /\ arch2[k] = val
-             \/ ~arched /\ (alg \in {"no", "lfu", "rr"} \/ S.g[i].taint))
-  \cup Chk("C05", "C05.Bound", maxs >= 0 => Size(mem2) <= MaxOf(maxs, Size(mem)))
-  \cup Chk("C05", "C05.ZeroKeepsNothing", alg = "no" => Size(mem2) = 0)
-  \cup Chk("C05", "C05.UnboundedKeeps", maxs = -1 => mid \subseteq Dom(mem2))
-  \cup Chk("C05", "C05.PurgeEmpties", purged => Size(mem2) = 0)
-  \cup Chk("C06", "C06.HitKeeps", class = "hit" => V = {})
-  \cup Chk("C06", "C06.NoOverflowKeeps", (maxs > 0 /\ Cardinality(mid) <= maxs) => V = {})
-  \cup Chk("C06", "C06.NothingAppears", Dom(mem2) \subseteq mid)
-  \cup Chk("C06", "C06.Policy", (overfl /\ ~S.g[i].taint /\ Dom(mem) # {}) =>
+      bound  == maxs >= 0 => Size(mem2) <= MaxOf(maxs, Size(mem))
+      hitKeeps == class = "hit" => V = {}
+      noOverflowKeeps == (maxs > 0 /\ Cardinality(mid) <= maxs) => V = {}
+      policy == (overfl /\ ~S.g[i].taint /\ Dom(mem) # {}) =>
              CASE alg = "lru" -> V = {ArgMin(Dom(mem), S.g[i].last)}
                [] alg = "mru" -> V = {ArgMax(Dom(mem), S.g[i].last)}
                [] alg = "lfu" -> V # {} /\ \A v \in V : \A w \in Dom(mem2) : U[v] <= U[w]
                [] alg = "rr"  -> Cardinality(V) = 1
-               [] OTHER       -> TRUE)
-  \cup Chk("C07", "C07.EvictedArchived", arched => \A kk \in V :
+               [] OTHER       -> TRUE
+  IN
+  IF class \in {"hit", "load", "miss"} THEN
+       Chk(props, "C01", "C01.Ret", e.exc = "none" /\ e.ret = val)
+  \cup Chk(props, "C01", "C01.MemSound", \A kk \in 1..cfg.nk : mem2[kk] \in {0, cfg.fk[kk]})
+  \cup Chk(props, "C01", "C01.ArchSound", \A x \in 1..cfg.na : \A kk \in 1..cfg.nk : e.archs[x][kk] \in {0, cfg.fk[kk]})
+  \cup Chk(props, "C02", "C02.Eval", e.ev = IF class = "miss" THEN <<a>> ELSE <<>>)
+  \cup Chk(props, "C02", "C02.MissStores", class = "miss" =>
+             \/ mem2[k] = val
+             \/ arched /\ arch2[k] = val
+             \/ ~arched /\ (alg \in {"no", "lfu", "rr"} \/ S.g[i].taint))
+  \cup Chk(props, "C05", "C05.Bound", bound)
+  \cup Chk(props, "C05", "C05.ZeroKeepsNothing", alg = "no" => Size(mem2) = 0)
+  \cup Chk(props, "C05", "C05.UnboundedKeeps", maxs = -1 => mid \subseteq Dom(mem2))
+  \cup Chk(props, "C05", "C05.PurgeEmpties", purged => Size(mem2) = 0)
+  \cup Chk(props, "C06", "C06.HitKeeps", hitKeeps)
+  \cup Chk(props, "C06", "C06.NoOverflowKeeps", noOverflowKeeps)
+  \cup Chk(props, "C06", "C06.NothingAppears", Dom(mem2) \subseteq mid)
+  \cup Chk(props, "C06", "C06.Policy", policy)
+  \* a call that raised / a lookup() or key() must leave later evictions exactly as they would have been
+  \cup Chk(props, "C16", "C16.LaterEvictionsUnaffected", S.g[i].raised => (bound /\ hitKeeps /\ noOverflowKeeps /\ policy))
+  \cup Chk(props, "C16", "C16.SafeNeverFails", ic.safe => e.exc = "none")
+  \cup Chk(props, "C18", "C18.EvictionUndisturbed", S.g[i].peeked => (bound /\ hitKeeps /\ noOverflowKeeps /\ policy))
+  \cup Chk(props, "C07", "C07.EvictedArchived", arched => \A kk \in V :
              arch2[kk] = (IF kk = k THEN newval ELSE mem[kk]))
-  \cup Chk("C07", "C07.ArchMonotone", arched => \A kk \in Dom(arch) : arch2[kk] = arch[kk])
-  \cup Chk("C07", "C07.NothingInvented", arched => \A kk \in Dom(arch2) \ Dom(arch) : kk \in mid /\ arch2[kk] = (IF kk = k THEN newval ELSE mem[kk]))
-  \cup Chk("C07", "C07.OtherArchivesUntouched", \A x \in 1..cfg.na : x # c => e.archs[x] = S.archs[x])
-  \cup Chk("C07", "C07.BindingStable", e.cur = S.cur)
-  \cup Chk("C07", "C07.Retrievable", arched => \A kk \in S.g[i].kept \cup (IF class = "miss" THEN {k} ELSE {}) :
+  \cup Chk(props, "C07", "C07.ArchMonotone", arched => \A kk \in Dom(arch) : arch2[kk] = arch[kk])
+  \cup Chk(props, "C07", "C07.NothingInvented", arched => \A kk \in Dom(arch2) \ Dom(arch) : kk \in mid /\ arch2[kk] = (IF kk = k THEN newval ELSE mem[kk]))
+  \cup Chk(props, "C07", "C07.OtherArchivesUntouched", \A x \in 1..cfg.na : x # c => e.archs[x] = S.archs[x])
+  \cup Chk(props, "C07", "C07.BindingStable", e.cur = S.cur)
+  \cup Chk(props, "C07", "C07.Retrievable", arched => \A kk \in S.g[i].kept \cup (IF class = "miss" THEN {k} ELSE {}) :
                                          mem2[kk] # 0 \/ arch2[kk] # 0)
-  \cup Chk("C02", "C02.AtMostOnceWhileArchived", class = "miss" => k \notin S.g[i].kept)
-  \cup Chk("C15", "C15.Count", <<inf2[1], inf2[2], inf2[3]>> = <<inf[1] + u[1], inf[2] + u[2], inf[3] + u[3]>>)
-  \cup Chk("C15", "C15.Size", inf2[5] = Size(mem2))
-  \cup Chk("C15", "C15.Maxsize", inf2[4] = maxs)
-  \cup Chk("C20", "C20.Independent", others)
-  \cup Chk("C18", "C18.StoredUnderKey", mem2[cfg.nk] = 0 /\ \A x \in 1..cfg.na : e.archs[x][cfg.nk] = 0)
+  \cup Chk(props, "C02", "C02.AtMostOnceWhileArchived", class = "miss" => k \notin S.g[i].kept)
+  \cup Chk(props, "C15", "C15.Count", <<inf2[1], inf2[2], inf2[3]>> = <<inf[1] + u[1], inf[2] + u[2], inf[3] + u[3]>>)
+  \cup Chk(props, "C15", "C15.Size", inf2[5] = Size(mem2))
+  \cup Chk(props, "C15", "C15.Maxsize", inf2[4] = maxs)
+  \cup Chk(props, "C20", "C20.Independent", others)
+  \cup Chk(props, "C18", "C18.StoredUnderKey", mem2[cfg.nk] = 0 /\ \A x \in 1..cfg.na : e.archs[x][cfg.nk] = 0)
   ELSE IF class = "raise" THEN
-       Chk("C16", "C16.SameException", e.exc = "same" /\ e.ret = 0)
-  \cup Chk("C16", "C16.OneEvaluation", e.ev = <<a>>)
-  \cup Chk("C16", "C16.NoTrace", e.mem = S.mem /\ e.archs = S.archs /\ e.cur = S.cur)
-  \cup Chk("C16", "C16.StatsUntouched", e.info = S.info)
+       Chk(props, "C16", "C16.SameException", e.exc = "same" /\ e.ret = 0)
+  \cup Chk(props, "C16", "C16.OneEvaluation", e.ev = <<a>>)
+  \cup Chk(props, "C16", "C16.NoTrace", e.mem = S.mem /\ e.archs = S.archs /\ e.cur = S.cur)
+  \cup Chk(props, "C16", "C16.StatsUntouched", e.info = S.info)
+  \cup Chk(props, "C15", "C15.RaiseNotCounted", e.info = S.info)
   ELSE \* "fallback": a safe decorator and arguments that cannot be turned into a key
-       Chk("C16", "C16.Fallback", e.exc = "none" /\ e.ret = val /\ e.ev = <<a>>)
-  \cup Chk("C16", "C16.FallbackFrame", Dom(mem2) \subseteq Dom(mem) /\ e.cur = S.cur
+       Chk(props, "C16", "C16.Fallback", e.exc = "none" /\ e.ret = val /\ e.ev = <<a>>)
+  \cup Chk(props, "C16", "C16.FallbackFrame", Dom(mem2) \subseteq Dom(mem) /\ e.cur = S.cur
                                  /\ \A x \in 1..cfg.na : \A kk \in Dom(S.archs[x]) : e.archs[x][kk] = S.archs[x][kk])
-  \cup Chk("C15", "C15.FallbackMiss", <<inf2[1], inf2[2], inf2[3]>> = <<inf[1], inf[2] + 1, inf[3]>> /\ inf2[5] = Size(mem2))
-  \cup Chk("C20", "C20.Independent", others)
+  \cup Chk(props, "C15", "C15.FallbackMiss", <<inf2[1], inf2[2], inf2[3]>> = <<inf[1], inf[2] + 1, inf[3]>> /\ inf2[5] = Size(mem2))
+  \cup Chk(props, "C20", "C20.Independent", others)
 
 -----------------------------------------------------------------------------
 (* Management operations exposed on the wrapper.  Their algebra is C08;     *)
@@ -162,7 +172,7 @@ Frame(cfg, S, e, i, what) ==   \* everything not named in `what` is unchanged
 StatsSame(S, e, i) == <<e.info[i][1], e.info[i][2], e.info[i][3], e.info[i][4]>>
                     = <<S.info[i][1], S.info[i][2], S.info[i][3], S.info[i][4]>>
 
-MgmtFailed(cfg, S, e) ==
+MgmtFailed(props, cfg, S, e) ==
   LET i      == e.i
       mem    == S.mem[i]
       mem2   == e.mem[i]
@@ -175,81 +185,83 @@ MgmtFailed(cfg, S, e) ==
       noeval == e.ev = <<>>
   IN
   CASE e.op = "load" ->
-         Chk("C08", "C08.Load", e.exc = "none" /\ mem2 = Overlay(mem, arch))
-    \cup Chk("C08", "C08.LoadFrame", Frame(cfg, S, e, i, {"mem"}) /\ noeval)
-    \cup Chk("C15", "C15.MgmtStats", StatsSame(S, e, i) /\ sizeok)
+         Chk(props, "C08", "C08.Load", e.exc = "none" /\ mem2 = Overlay(mem, arch))
+    \cup Chk(props, "C08", "C08.LoadFrame", Frame(cfg, S, e, i, {"mem"}) /\ noeval)
+    \cup Chk(props, "C15", "C15.MgmtStats", StatsSame(S, e, i) /\ sizeok)
   [] e.op = "loadk" ->
-         Chk("C08", "C08.LoadKeys", e.exc = "none" /\ mem2 = [kk \in 1..cfg.nk |->
+         Chk(props, "C08", "C08.LoadKeys", e.exc = "none" /\ mem2 = [kk \in 1..cfg.nk |->
                   IF kk \in ks /\ arch[kk] # 0 THEN arch[kk] ELSE mem[kk]])
-    \cup Chk("C08", "C08.LoadFrame", Frame(cfg, S, e, i, {"mem"}) /\ noeval)
-    \cup Chk("C15", "C15.MgmtStats", StatsSame(S, e, i) /\ sizeok)
+    \cup Chk(props, "C08", "C08.LoadFrame", Frame(cfg, S, e, i, {"mem"}) /\ noeval)
+    \cup Chk(props, "C15", "C15.MgmtStats", StatsSame(S, e, i) /\ sizeok)
   [] e.op = "dump" ->
-         Chk("C08", "C08.Dump", e.exc = "none" /\ (arched => arch2 = Overlay(arch, mem)))
-    \cup Chk("C08", "C08.DumpFrame", Frame(cfg, S, e, i, {"archs"}) /\ noeval
+         Chk(props, "C08", "C08.Dump", e.exc = "none" /\ (arched => arch2 = Overlay(arch, mem)))
+    \cup Chk(props, "C08", "C08.DumpFrame", Frame(cfg, S, e, i, {"archs"}) /\ noeval
                 /\ \A x \in 1..cfg.na : x # c => e.archs[x] = S.archs[x])
-    \cup Chk("C15", "C15.MgmtStats", StatsSame(S, e, i) /\ sizeok)
+    \cup Chk(props, "C15", "C15.MgmtStats", StatsSame(S, e, i) /\ sizeok)
   [] e.op = "dumpk" ->
-         Chk("C08", "C08.DumpKeys", e.exc = "none" /\ (arched => arch2 = [kk \in 1..cfg.nk |->
+         Chk(props, "C08", "C08.DumpKeys", e.exc = "none" /\ (arched => arch2 = [kk \in 1..cfg.nk |->
                   IF kk \in ks /\ mem[kk] # 0 THEN mem[kk] ELSE arch[kk]]))
-    \cup Chk("C08", "C08.DumpFrame", Frame(cfg, S, e, i, {"archs"}) /\ noeval
+    \cup Chk(props, "C08", "C08.DumpFrame", Frame(cfg, S, e, i, {"archs"}) /\ noeval
                 /\ \A x \in 1..cfg.na : x # c => e.archs[x] = S.archs[x])
-    \cup Chk("C15", "C15.MgmtStats", StatsSame(S, e, i) /\ sizeok)
+    \cup Chk(props, "C15", "C15.MgmtStats", StatsSame(S, e, i) /\ sizeok)
   [] e.op = "clear" ->
-         Chk("C15", "C15.ClearEmpties", e.exc = "none" /\ Size(mem2) = 0)
-    \cup Chk("C15", "C15.ClearStats", (IF e.keep THEN StatsSame(S, e, i)
+         Chk(props, "C15", "C15.ClearEmpties", e.exc = "none" /\ Size(mem2) = 0)
+    \cup Chk(props, "C15", "C15.ClearStats", (IF e.keep THEN StatsSame(S, e, i)
                                ELSE <<e.info[i][1], e.info[i][2], e.info[i][3]>> = <<0,0,0>> /\ e.info[i][4] = S.info[i][4])
                               /\ sizeok)
-    \cup Chk("C08", "C08.ClearFrame", Frame(cfg, S, e, i, {"mem"}) /\ noeval)
+    \cup Chk(props, "C08", "C08.ClearFrame", Frame(cfg, S, e, i, {"mem"}) /\ noeval)
   [] e.op = "arch_off" ->
-         Chk("C08", "C08.ToggleOff", e.exc = "none" /\ e.cur[i] = 0)
-    \cup Chk("C08", "C08.ToggleFrame", Frame(cfg, S, e, i, {"cur"}) /\ noeval)
-    \cup Chk("C15", "C15.MgmtStats", StatsSame(S, e, i) /\ sizeok)
+         Chk(props, "C08", "C08.ToggleOff", e.exc = "none" /\ e.cur[i] = 0)
+    \cup Chk(props, "C08", "C08.ToggleFrame", Frame(cfg, S, e, i, {"cur"}) /\ noeval)
+    \cup Chk(props, "C15", "C15.MgmtStats", StatsSame(S, e, i) /\ sizeok)
   [] e.op = "arch_on" ->
-         Chk("C08", "C08.ToggleOn",
+         Chk(props, "C08", "C08.ToggleOn",
                IF c # 0 THEN e.exc = "none" /\ e.cur[i] = c
                ELSE IF S.g[i].parked # 0 THEN e.exc = "none" /\ e.cur[i] = S.g[i].parked
                ELSE e.exc = "ValueError" /\ e.cur[i] = 0)
-    \cup Chk("C08", "C08.ToggleFrame", Frame(cfg, S, e, i, {"cur"}) /\ noeval)
-    \cup Chk("C15", "C15.MgmtStats", StatsSame(S, e, i) /\ sizeok)
+    \cup Chk(props, "C08", "C08.ToggleFrame", Frame(cfg, S, e, i, {"cur"}) /\ noeval)
+    \cup Chk(props, "C15", "C15.MgmtStats", StatsSame(S, e, i) /\ sizeok)
   [] e.op = "set_archive" ->
-         Chk("C08", "C08.SetArchive", e.exc = "none" /\ e.cur[i] = e.x)
-    \cup Chk("C08", "C08.ToggleFrame", Frame(cfg, S, e, i, {"cur"}) /\ noeval)
-    \cup Chk("C15", "C15.MgmtStats", StatsSame(S, e, i) /\ sizeok)
+         Chk(props, "C08", "C08.SetArchive", e.exc = "none" /\ e.cur[i] = e.x)
+    \cup Chk(props, "C08", "C08.ToggleFrame", Frame(cfg, S, e, i, {"cur"}) /\ noeval)
+    \cup Chk(props, "C15", "C15.MgmtStats", StatsSame(S, e, i) /\ sizeok)
   [] e.op = "lookup" ->
-         Chk("C18", "C18.Lookup", LET k == cfg.keyof[e.a] IN
+         Chk(props, "C18", "C18.Lookup", LET k == cfg.keyof[e.a] IN
                IF mem[k] # 0 THEN e.exc = "none" /\ e.ret = mem[k]
                ELSE e.exc = "KeyError")
-    \cup Chk("C18", "C18.LookupPure", Frame(cfg, S, e, i, {}) /\ e.info = S.info /\ noeval)
+    \cup Chk(props, "C18", "C18.LookupPure", Frame(cfg, S, e, i, {}) /\ e.info = S.info /\ noeval)
   [] e.op = "key" ->
-         Chk("C18", "C18.Key", e.exc = "none" /\ e.ret = cfg.keyof[e.a])
-    \cup Chk("C18", "C18.KeyPure", Frame(cfg, S, e, i, {}) /\ e.info = S.info /\ noeval)
+         Chk(props, "C18", "C18.Key", e.exc = "none" /\ e.ret = cfg.keyof[e.a])
+    \cup Chk(props, "C18", "C18.KeyPure", Frame(cfg, S, e, i, {}) /\ e.info = S.info /\ noeval)
   [] e.op = "info" ->
-         Chk("C15", "C15.InfoPure", Frame(cfg, S, e, i, {}) /\ e.info = S.info /\ noeval)
-    \cup Chk("C15", "C15.Size", e.info[i][5] = Size(mem2))
+         Chk(props, "C15", "C15.InfoPure", Frame(cfg, S, e, i, {}) /\ e.info = S.info /\ noeval)
+    \cup Chk(props, "C15", "C15.Size", e.info[i][5] = Size(mem2))
   [] e.op = "wrapped" ->
-         Chk("C18", "C18.Wrapped", e.exc = "none" /\ e.ret = 1 /\ Frame(cfg, S, e, i, {}) /\ e.info = S.info)
+         Chk(props, "C18", "C18.Wrapped", e.exc = "none" /\ e.ret = 1 /\ Frame(cfg, S, e, i, {}) /\ e.info = S.info)
+  [] e.op = "arm_fault" ->  \* the harness arms a one-shot write failure in the bound archive: no state change
+         Chk(props, "C07", "C07.ArmFrame", Frame(cfg, S, e, i, {}) /\ e.info = S.info)
   [] e.op = "decorate" ->   \* creating instance i (first event of a trace, or re-decoration)
-         Chk("C05", "C05.Decorate", e.exc = "none")
-    \cup Chk("C15", "C15.Maxsize", e.exc = "none" => e.info[i][4] = cfg.inst[i].maxsize)
+         Chk(props, "C05", "C05.Decorate", e.exc = "none")
+    \cup Chk(props, "C15", "C15.Maxsize", e.exc = "none" => e.info[i][4] = cfg.inst[i].maxsize)
   [] e.op = "clone" ->      \* j := dill.loads(dill.dumps(i))
          LET j == e.j IN
-         Chk("C20", "C20.CloneEqual", e.exc = "none" /\ e.mem[j] = S.mem[i] /\ e.info[j] = S.info[i]
+         Chk(props, "C20", "C20.CloneEqual", e.exc = "none" /\ e.mem[j] = S.mem[i] /\ e.info[j] = S.info[i]
                                /\ (IF S.cur[i] = 0 THEN e.cur[j] = 0
                                    ELSE e.cur[j] # 0 /\ e.archs[e.cur[j]] = S.archs[S.cur[i]]))
-    \cup Chk("C20", "C20.CloneLeavesOriginal", e.mem[i] = S.mem[i] /\ e.info[i] = S.info[i] /\ e.cur[i] = S.cur[i]
+    \cup Chk(props, "C20", "C20.CloneLeavesOriginal", e.mem[i] = S.mem[i] /\ e.info[i] = S.info[i] /\ e.cur[i] = S.cur[i]
                                /\ \A x \in 1..cfg.na : x # e.cur[j] => e.archs[x] = S.archs[x])
   [] OTHER -> {<<"ALL", "Trace.UnknownOp">>}
 
 (* lock-step continuation after a dill round trip: the same operation was just applied to the   *)
 (* original (e.mirror) and must have had the same effect on the copy (e.i)                     *)
-MirrorFailed(cfg, S, e) ==
+MirrorFailed(props, cfg, S, e) ==
   IF "mirror" \in DOMAIN e
-  THEN Chk("C20", "C20.LockStep", /\ e.mem[e.i] = e.mem[e.mirror] /\ e.info[e.i] = e.info[e.mirror]
+  THEN Chk(props, "C20", "C20.LockStep", /\ e.mem[e.i] = e.mem[e.mirror] /\ e.info[e.i] = e.info[e.mirror]
                                   /\ e.ret = e.mret /\ e.exc = e.mexc)
   ELSE {}
 
-Failed(cfg, S, e) == (IF e.op = "call" THEN CallFailed(cfg, S, e) ELSE MgmtFailed(cfg, S, e))
-                     \cup MirrorFailed(cfg, S, e)
+Failed(props, cfg, S, e) == (IF e.op = "call" THEN CallFailed(props, cfg, S, e) ELSE MgmtFailed(props, cfg, S, e))
+                            \cup MirrorFailed(props, cfg, S, e)
 
 -----------------------------------------------------------------------------
 (* Ghost update: recency, frequency, taint (entries that entered memory     *)
@@ -273,29 +285,34 @@ GhostAfter(cfg, S, e) ==
                  !.uses  = [kk \in 1..cfg.nk |-> IF m2[kk] = 0 THEN 0 ELSE U[kk]],
                  !.taint = g.taint /\ Size(m2) > 0,
                  !.kept  = IF class = "miss" /\ S.cur[i] # 0 THEN g.kept \cup {k} ELSE g.kept ]]
+        ELSE IF class = "raise" THEN [S.g EXCEPT ![i] = [g EXCEPT !.raised = TRUE]]
         ELSE S.g
   ELSE IF e.op \in {"load", "loadk"} THEN
      [S.g EXCEPT ![i] = [g EXCEPT !.taint = g.taint \/ Dom(e.mem[i]) # Dom(S.mem[i])]]
   ELSE IF e.op = "clear" THEN
      [S.g EXCEPT ![i] = [g EXCEPT !.taint = Size(e.mem[i]) > 0,
                                   !.last = EmptyMap(cfg.nk), !.uses = EmptyMap(cfg.nk),
-                                  !.kept = g.kept \cap Dom(ArchOf(cfg, S.archs, S.cur[i]))]]
+                                  !.kept = g.kept \cap Dom(ArchOf(cfg, S.archs, S.cur[i])),
+                                  !.raised = FALSE, !.peeked = FALSE]]
   ELSE IF e.op = "arch_off" THEN
      [S.g EXCEPT ![i] = [g EXCEPT !.parked = IF S.cur[i] # 0 THEN S.cur[i] ELSE g.parked, !.kept = {}]]
   ELSE IF e.op \in {"arch_on", "set_archive"} THEN
      [S.g EXCEPT ![i] = [g EXCEPT !.parked = 0, !.kept = {}]]
   ELSE IF e.op = "clone" THEN
      [S.g EXCEPT ![e.j] = g]
+  ELSE IF e.op \in {"lookup", "key"} THEN
+     [S.g EXCEPT ![i] = [g EXCEPT !.peeked = TRUE]]
   ELSE IF e.op = "decorate" THEN
      [S.g EXCEPT ![i] = [g EXCEPT !.taint = Size(e.mem[i]) > 0, !.kept = {}]]
   ELSE S.g
 
 Ghost0(cfg) == [i \in 1..cfg.ni |->
                  [last |-> EmptyMap(cfg.nk), uses |-> EmptyMap(cfg.nk), clock |-> 0,
-                  taint |-> FALSE, parked |-> 0, kept |-> {}]]
+                  taint |-> FALSE, parked |-> 0, kept |-> {},
+                  raised |-> FALSE, peeked |-> FALSE]]
 
 Adopt(cfg, S, e) == [mem |-> e.mem, archs |-> e.archs, cur |-> e.cur, info |-> e.info,
                      g |-> GhostAfter(cfg, S, e)]
 
-Select(failed, props) == {x[2] : x \in {y \in failed : y[1] \in props \cup {"ALL"}}}
+Names2(failed) == {x[2] : x \in failed}
 =============================================================================
